@@ -1,4 +1,5 @@
 import Octo.Lemmas.TypingTy
+import Octo.Model.TypingCovers
 /-!
   Octo.Lemmas.TypingDefs — the vocabulary of the soundness theorem of C08: conforming environments, well-formed
   contexts, admissible constants, what a descriptor table has to satisfy (`SigOk`, `DescrSound`), and the invariant
@@ -37,37 +38,6 @@ def constsOkList : List LExpr → Bool
   | e :: es => constsOk e && constsOkList es
 end
 
-mutual
-/-- struct-, tuple- and `Any`-free types: scalars, NULL, lists and unions of those -/
-def plainData : Ty → Bool
-  | .list e => plainData e
-  | .union alts => plainDataList alts
-  | .null | .int | .float | .bool | .str | .time | .dur | .listNil => true
-  | .struct _ _ | .tuple _ | .any => false
-def plainDataList : List Ty → Bool
-  | [] => true
-  | t :: ts => plainData t && plainDataList ts
-end
-
-mutual
-/-- every COALESCE in the typed expression has arguments of struct-, tuple- and `Any`-free types
-    (then `ObjectLayoutFixer` is the identity; objects inside COALESCE are covered by the correspondence run only) -/
-def coalescePlain : PExpr → Bool
-  | .var _ _ => true
-  | .const _ _ => true
-  | .call _ _ _ _ args => coalescePlainList args
-  | .and _ args => coalescePlainList args
-  | .or _ args => coalescePlainList args
-  | .coalesce _ args => coalescePlainList args && args.all (fun a => plainData a.ty)
-  | .tuple _ args => coalescePlainList args
-  | .assert _ _ e => coalescePlain e
-  | .cast _ _ e => coalescePlain e
-  | .field _ _ e => coalescePlain e
-def coalescePlainList : List PExpr → Bool
-  | [] => true
-  | p :: ps => coalescePlain p && coalescePlainList ps
-end
-
 /-- a declared parameter type: one of the six scalar types, or `Any` -/
 def paramOk (p : Ty) : Bool := (isLeaf p && p.id != 0) || p.isAny
 
@@ -90,6 +60,6 @@ structure SigOk (S : Sig) : Prop where
 /-- the invariant: the static type is well formed, and every value the expression evaluates to matches it -/
 def Sound (S : Sig) (Γ : Ctx) (p : PExpr) : Prop :=
   wf p.ty = true ∧
-  (coalescePlain p = true → ∀ ρ v, EnvConforms Γ ρ → eval S Γ ρ p = .val v → conforms p.ty v = true)
+  (coalesceOk p = true → ∀ ρ v, EnvConforms Γ ρ → eval S Γ ρ p = .val v → conforms p.ty v = true)
 
 end Octo.Tc
